@@ -84,7 +84,7 @@ Lemma qsum_repeat0 n : qsum (repeat 0 n) == 0.
 Proof. induction n; cbn; [reflexivity|]. rewrite IHn. ring. Qed.
 
 (* ---------------- vectors ---------------- *)
-Definition vec := list Q.
+Notation vec := (list Q) (only parsing).
 Definition veq : vec -> vec -> Prop := Forall2 Qeq.
 Definition vle : vec -> vec -> Prop := Forall2 Qle.
 Definition vadd : vec -> vec -> vec := map2 Qplus.
